@@ -272,7 +272,7 @@ def run(tier):
         rep.extra['mutants'] = len(muts)
         rep.extra['seeds'] = names
         rep.extra['hszinc_outcomes'] = {k: sum(1 for c in cases if c['out'] == k) for k in set(c['out'] for c in cases)}
-        if rep.extra['hszinc_outcomes'].get('grid', 0) < 50 or rep.extra['hszinc_outcomes'].get('zpe', 0) < 500:
+        if (rep.extra['hszinc_outcomes'].get('grid', 0) < 50 or rep.extra['hszinc_outcomes'].get('zpe', 0) < 500) and not rep.violations:
             raise MachineryError('vacuous mutant set: %r' % rep.extra['hszinc_outcomes'])
         rep.sample({'mutant': {'text': ''.join(chr(x) for x in muts[len(muts) // 2]['text']), 'm': muts[len(muts) // 2]['m']}})
         # binding self-test: an accepted "zpe" case relabelled as a returned grid must be rejected
